@@ -169,7 +169,7 @@ func c06plan(tier string, seed int64) []run.Job {
 		nr, per, maxNodes = 64, 1500, 6
 	}
 	for i := 0; i < nr; i++ {
-		jobs = append(jobs, run.Job{Family: "random", Seed: seed*100000 + int64(i), N: per, P: map[string]int{"strat": 1, "maxlen": 7, "inputs": 6, "nl": 1}})
+		jobs = append(jobs, run.Job{Family: "random", Seed: seed*100000 + int64(i), N: per, P: map[string]int{"strat": 1, "maxlen": 7, "inputs": 6, "nl": 1, "pct": 1}})
 		jobs = append(jobs, run.Job{Family: "random", Seed: seed*100000 + 10000 + int64(i), N: per / 4, P: map[string]int{"strat": 0, "maxlen": 7, "inputs": 6, "nl": 1}})
 		jobs = append(jobs, run.Job{Family: "mutual", Seed: seed*100000 + 50000 + int64(i), N: per / 4, P: map[string]int{"inputs": 6, "maxlen": 9}})
 		// End() inside the grammar ("terminated by ';' or by the end of input"): its failure is not a not-found error
